@@ -244,8 +244,29 @@ class Spec:
 
 
 def pystr(s: str) -> str:
-    """A Python string literal that is robust in any context (ASCII-only repr)."""
-    return json.dumps(s, ensure_ascii=True).replace("\\u007f", "\\x7f")
+    """A Python string literal that is robust in any context (ASCII-only, double-quoted)."""
+    out = []
+    for ch in s:
+        o = ord(ch)
+        if ch == "\\":
+            out.append("\\\\")
+        elif ch == '"':
+            out.append('\\"')
+        elif ch == "\n":
+            out.append("\\n")
+        elif ch == "\r":
+            out.append("\\r")
+        elif ch == "\t":
+            out.append("\\t")
+        elif o < 0x20 or o == 0x7F:
+            out.append(f"\\x{o:02x}")
+        elif o <= 0x7E:
+            out.append(ch)
+        elif o <= 0xFFFF:
+            out.append(f"\\u{o:04x}")
+        else:
+            out.append(f"\\U{o:08x}")
+    return '"' + "".join(out) + '"'
 
 
 def _doc(doc: Optional[str], indent: str) -> List[str]:
@@ -366,6 +387,8 @@ def pyvalue(kind: str, v: Any) -> str:
     if kind == "bytearray":
         return "b" + pystr(bytes(v).decode("latin-1")).replace("\\u00", "\\x")
     if kind == "float":
+        if v == float("inf"):
+            return "1e999"
         return repr(float(v))
     return repr(v)
 
@@ -486,7 +509,11 @@ class Opts:
     weird_values: bool = False  # nan/inf/huge ints in constants
     patterns: Optional[Any] = None  # strategy for anchored patterns (else a small built-in pool)
     class_weight: int = 1  # relative weight of class-typed properties / list items
+    max_consts: int = 3
+    max_literals: int = 4
 
+
+WEIRD_CHARS = "ab \"'\\\n\t\r\x00\x01\x1f\x7f\u0085\u00a0\u00e9\u00ff\u0100\u2028\u2029\ufeff\ufffd\U0001F600{}$`%"
 
 PATTERN_EXAMPLES = {
     "^[a-z]+$": ["a", "ab", "abc", "zzzz", "abcdef"],
@@ -583,7 +610,7 @@ def specs(draw: Any, opts: Opts = Opts()) -> Spec:
     # ---- enumerations ----
     n_enums = draw(st.integers(0, opts.max_enums))
     for nm in _names(draw, TYPE_WORDS, ["_kind", "_type", "_mode"], n_enums, taken):
-        n_lit = draw(st.integers(1, 4))
+        n_lit = draw(st.integers(1, opts.max_literals))
         lit_names = _names(draw, TYPE_WORDS, ["", "_x", "_2"], n_lit, set())
         vals = []  # type: List[str]
         for ln in lit_names:
@@ -633,7 +660,7 @@ def specs(draw: Any, opts: Opts = Opts()) -> Spec:
 
     # ---- constants ----
     if opts.consts:
-        n_consts = draw(st.integers(0, 3))
+        n_consts = draw(st.integers(0, opts.max_consts))
         str_sets = []  # type: List[Const]
         enum_sets = []  # type: List[Const]
         for nm in _names(draw, TYPE_WORDS, ["_set", "_constants", "_limit"], n_consts, taken):
@@ -641,7 +668,10 @@ def specs(draw: Any, opts: Opts = Opts()) -> Spec:
             if kind == "set_enum" and not spec.enums:
                 kind = "set_str"
             if kind == "set_str":
-                vals = draw(st.lists(st.sampled_from(["a", "b", "ab", "x-1", "Foo", "foo", "", " "]), min_size=1, max_size=4, unique=True))
+                pool = ["a", "b", "ab", "x-1", "Foo", "foo", "", " "]
+                if opts.weird_values:
+                    pool += ["'", '"', "\\", "\n", "\t", "\u00e9", "\U0001F600", "{", "${x}", "a'b\"c", "\x00", "\x7f", "\u2028"]
+                vals = draw(st.lists(st.sampled_from(pool), min_size=1, max_size=4, unique=True))
                 sup = []  # type: List[str]
                 if str_sets and draw(st.booleans()):
                     sub = draw(st.sampled_from(str_sets))
@@ -665,12 +695,22 @@ def specs(draw: Any, opts: Opts = Opts()) -> Spec:
                 c = Const(nm, kind, vals, enum=e.name, superset_of=sup, doc=_plain_doc(draw, opts))
                 enum_sets.append(c)
             elif kind == "str":
-                c = Const(nm, kind, draw(st.sampled_from(["", "abc", "x y", "A-1", "\u00e9"])), doc=_plain_doc(draw, opts),
-                          positional=draw(st.booleans()))
+                if opts.weird_values and draw(st.booleans()):
+                    v = draw(st.text(alphabet=st.sampled_from(list(WEIRD_CHARS)), max_size=8))
+                else:
+                    v = draw(st.sampled_from(["", "abc", "x y", "A-1", "\u00e9"]))
+                c = Const(nm, kind, v, doc=_plain_doc(draw, opts), positional=draw(st.booleans()))
             elif kind == "int":
-                c = Const(nm, kind, draw(st.integers(0, 2000)), doc=_plain_doc(draw, opts), positional=draw(st.booleans()))
+                if opts.weird_values and draw(st.booleans()):
+                    v = draw(st.sampled_from([2**31, 2**53 + 1, 2**63, 2**64, 10**30, 255, 65536]))
+                else:
+                    v = draw(st.integers(0, 2000))
+                c = Const(nm, kind, v, doc=_plain_doc(draw, opts), positional=draw(st.booleans()))
             elif kind == "float":
-                c = Const(nm, kind, draw(st.sampled_from([0.0, 1.5, 2.25, 1e10, 0.1])), doc=_plain_doc(draw, opts))
+                pool = [0.0, 1.5, 2.25, 1e10, 0.1]
+                if opts.weird_values:
+                    pool += [float("inf"), 5e-324, 1.7976931348623157e308, 0.1 + 0.2, 1e-7, 123456789.12345678, 1e22, 1e16]
+                c = Const(nm, kind, draw(st.sampled_from(pool)), doc=_plain_doc(draw, opts))
             elif kind == "bool":
                 c = Const(nm, kind, draw(st.booleans()), doc=_plain_doc(draw, opts))
             else:
